@@ -73,6 +73,11 @@ CHECKS = {
             "TLC random-walks the XrGen machine over generator operations on finite and infinite sources and records every stream; every generator is consumed twice (re-iterability) and finite consumptions of infinite pipelines must terminate (laziness).",
             "Evaluated-prefix bounds are observed as termination, not as exact pull counts; simulation is sampled.",
             "DESIGN.md 6 C16"),
+    "C17": ("model_checking",
+            "TLA+ finite-map semantics over equivalence classes (XrMap pool machine, -simulate) + TLA+ acceptor of bucket tables (XrMapRepr)",
+            "TLC random-walks histories of mapping and set operations for a (hash, equality) pair drawn per program (identity / congruence mod 2, 3; hash injective / mod 2 / mod 3 / constant) and records the abstract map over equivalence classes; the interpreter must reproduce every version (all read back at the end: persistence) and every bucket table it built is validated by XrMapRepr (length exact, keys in the bucket of their hash, keys pairwise inequivalent).",
+            "Keys are ints 0..5, values ints; iteration order is not compared; hashes outside [0, 2^64) are not in this machine.",
+            "DESIGN.md 6 C17"),
 }
 
 NOT_YET = {}
